@@ -30,6 +30,8 @@ class Ctx:
         self.pid, self.tier, self.seed, self.level = pid, tier, seed, level
         self.replay = replay  # dict from replay.json or None
         self.scratch = Scratch(pid)
+        if replay is None:
+            shutil.rmtree(os.path.join(VERIF, "replays", pid), ignore_errors=True)
         self.t0 = time.time()
         self._lock = threading.Lock()
         self.evaluations = 0
